@@ -1,0 +1,11 @@
+//go:build !verif
+
+// Package verifhook provides yield points for the verification harness.
+// Without the "verif" build tag every function is an empty inlinable stub.
+package verifhook
+
+// Yield marks a point between two critical sections where the harness may switch actors.
+func Yield(_ string, _ ...string) {}
+
+// Skip reports whether the harness wants the caller to skip the code guarded by the point.
+func Skip(_ string) bool { return false }
